@@ -168,6 +168,15 @@ def gen_ops(rng, length):
     return ops
 
 
+GOLDEN_PRESET = [
+    # two providers registered with one preset client class: a state made at one is nothing at the other
+    ("preset-other-provider", [{"op": "begin", "sess": 0, "prov": "presetA", "redirect": REDIRECTS[0]}, {"op": "callback", "sess": 0, "prov": "presetB", "state": 0},
+                               {"op": "callback", "sess": 0, "prov": "presetA", "state": 0}]),
+    ("preset-both", [{"op": "begin", "sess": 0, "prov": "presetA", "redirect": REDIRECTS[0]}, {"op": "begin", "sess": 0, "prov": "presetB", "redirect": REDIRECTS[1]},
+                     {"op": "callback", "sess": 0, "prov": "presetA", "state": 1}, {"op": "callback", "sess": 0, "prov": "presetB", "state": 1},
+                     {"op": "callback", "sess": 0, "prov": "presetA", "state": 0}]),
+    ("late-openid", [{"op": "begin", "sess": 0, "prov": "lateoidc", "redirect": REDIRECTS[0]}, {"op": "callback", "sess": 0, "prov": "lateoidc", "state": 0}]),
+]
 GOLDEN_POST = [
     ("post-replay", [{"op": "begin", "sess": 0, "prov": "pkce", "redirect": REDIRECTS[0]}, {"op": "callback", "sess": 0, "prov": "pkce", "state": 0, "post": True},
                      {"op": "callback", "sess": 0, "prov": "pkce", "state": 0, "post": True}, {"op": "callback", "sess": 0, "prov": "pkce", "state": 0}]),
@@ -216,7 +225,7 @@ def run(ctx):
     n = 25 if ctx.tier == "quick" else 250
     for fw in CA.ADAPTERS:
         for use_cache in (False, True):
-            for tag, ops in GOLDEN + GOLDEN_POST:
+            for tag, ops in GOLDEN + GOLDEN_POST + GOLDEN_PRESET:
                 check_history(ctx, fw, use_cache, ops, "golden:" + tag)
             for _ in range(n):
                 check_history(ctx, fw, use_cache, gen_ops(rng, rng.choice([4, 6, 8, 10])), "walk")
